@@ -64,6 +64,14 @@ class Check(object):
         self.transitions += res.generated
         self.stages[name] = {"states_generated": res.generated, "distinct_states": res.distinct,
                              "depth": res.depth, "wall_s": round(res.wall, 2), "completed": res.completed}
+        cov = res.coverage_counts()
+        if cov:
+            # vacuity guard: an action of the model that TLC never took means the properties were never exercised on it
+            self.stages[name]["actions_taken"] = {a: c[1] for a, c in sorted(cov.items())}
+            never = sorted(a for a, c in cov.items() if c[1] == 0 and a not in ("Init",))
+            self.stages[name]["actions_never_taken"] = never
+            if never:
+                self.machinery("model %s: TLC never took the action(s) %s (vacuous check)" % (name, ", ".join(never)))
         return res
 
     def case(self, sig, sample=None, n=1):
